@@ -161,7 +161,7 @@ def roundTrip (m : Message) (comp : Option CompMap) : String :=
 def packNames : List (Bytes × Bytes) → Bytes → Option CompMap → Except Err Bytes
   | [], out, _ => .ok out
   | (gap, n) :: r, out, comp =>
-    match packName n (out.length + gap.length) comp with
+    match packName n (out ++ gap) comp with
     | .error e => .error e
     | .ok (bs, c) => packNames r (out ++ gap ++ bs) c
 
